@@ -1,7 +1,66 @@
-(* C10 placeholder: theorems land with Proofs/WorldProofs.v *)
-From Coq Require Import ZArith List.
-From V Require Import Result World.
+(* C10 -- module.symbols_named(name) yields exactly the symbols currently in that module with that name, and
+   block.references exactly the symbols of the block's current module whose referent is that block (nothing when the
+   block has no module), each once; across renames, payload changes, adding / removing / moving symbols and blocks.
+   Model: Model/World.v (nix / rix = Module._symbol_name_index / _symbol_referent_index, mod_index_add /
+   mod_index_discard, sym_attr, symbols_named, references), Model/WorldGuard.v.
+   Invariant: InvDefs.SymIx together with WorldInv.FreshIx, parts of WorldInv.InvAll.
+   Only property theorems here; proofs in Proofs/SymIxBase.v, Proofs/SymIxProofs.v, Proofs/WorldInv.v. *)
+From Coq Require Import ZArith List Bool.
+From V Require Import Result LazyTree World WorldGuard ForestDefs InvDefs WorldInv WorldProps.
+From V Require SymIxProofs ScheduleProofs.
 Import ListNotations.
-Theorem C10_new_detached : forall w n k u a s f nm p, par (step' w (ONew n k u a s f nm p)) n = None.
-Proof. intros. unfold step', step, par, getn. destruct k; cbn; unfold upd; rewrite Z.eqb_refl; reflexivity. Qed.
-Print Assumptions C10_new_detached.
+Open Scope Z_scope.
+
+(* after any history: each qualifying symbol exactly once, nothing else *)
+Theorem C10_symbols_named_exact : forall w known m nm, reachable_k w known -> has w m = true -> kindof w m = KMod ->
+  NoDup (symbols_named w m nm) /\
+  forall y, In y (symbols_named w m nm) <-> In y (kids w m) /\ kindof w y = KSym /\ nname (getn w y) = nm.
+Proof.
+  intros w known m nm R. exact (SymIxProofs.symbols_named_exact w known m nm (reach_forest w known R) (reach_symix w known R)).
+Qed.
+
+(* b is a block or a proxy (or anything else); when it has no module the right-hand side is empty *)
+Theorem C10_references_exact : forall w known b, reachable_k w known -> has w b = true ->
+  NoDup (references w b) /\
+  forall y, In y (references w b) <->
+    exists m, module_of w b = Some m /\ In y (kids w m) /\ kindof w y = KSym /\ referent (getn w y) = Some b.
+Proof.
+  intros w known b R. exact (SymIxProofs.references_exact w known b (reach_forest w known R) (reach_symix w known R)).
+Qed.
+
+Theorem C10_references_detached : forall w b, module_of w b = None -> references w b = [].
+Proof. intros w b H. unfold references. rewrite H. reflexivity. Qed.
+
+(* the indexes hold in every state of every history, also with lookups interleaved *)
+Theorem C10_index_invariant : forall w known, reachable_k w known -> SymIx w /\ FreshIx w.
+Proof. intros w known R. exact (conj (reach_symix w known R) (reach_fresh w known R)). Qed.
+
+Theorem C10_with_lookups_interleaved : forall its, SymIx (fst (ScheduleProofs.run_sched w0 [] its)).
+Proof. intros its. exact (inv_symix _ _ (ia_inv _ _ (invall_sched its))). Qed.
+
+(* non-vacuity: two modules 2, 3 of IR 1; block 8 (module 2 > section 4 > interval 6); symbols 10, 11, 12.
+   10 and 11 are named 7 in module 2, 11 refers to block 8; then 11 is renamed to 0, 12 gets referent 8 and then the
+   integer value 0, 10 is moved to module 3, and the block's section is moved to module 3. *)
+Example C10_example :
+  let ops1 := [ONew 1 KIR 101 None 0 0 0 PNone; ONew 2 KMod 102 None 0 0 0 PNone; ONew 3 KMod 103 None 0 0 0 PNone;
+               ONew 4 KSec 104 None 0 0 0 PNone; ONew 6 KBI 106 (Some 0) 16 0 0 PNone; ONew 8 KCode 108 None 4 0 0 PNone;
+               OModAppend 1 2; OModAppend 1 3; OSetParent 4 (Some 2); OSetParent 6 (Some 4); OSetParent 8 (Some 6);
+               ONew 10 KSym 110 None 0 0 7 PNone; ONew 11 KSym 111 None 0 0 7 (PRef 8); ONew 12 KSym 112 None 0 0 9 PNone;
+               OSet 2 [KSym] SUpdate [[10; 11]; [12]]] in
+  let ops2 := [OAttrName 11 0; OAttrPay 12 (PRef 8); OSetParent 10 (Some 3)] in
+  let ops3 := [OAttrPay 12 (PVal 0); OSet 3 [KSec] SAdd [[4]]; OAttrPay 10 (PRef 8)] in
+  let w1 := fst (run_guarded w0 [] ops1) in
+  let w2 := fst (run_guarded w0 [] (ops1 ++ ops2)) in
+  let w3 := fst (run_guarded w0 [] (ops1 ++ ops2 ++ ops3)) in
+  all_guarded_ok w0 [] (ops1 ++ ops2 ++ ops3) = true /\
+  (symbols_named w1 2 7, symbols_named w1 2 0, references w1 8) = ([10; 11], [], [11]) /\
+  (symbols_named w2 2 7, symbols_named w2 2 0, symbols_named w2 3 7, references w2 8) = ([], [11], [10], [11; 12]) /\
+  (module_of w3 8, references w3 8, symbols_named w3 2 9) = (Some 3, [10], [12]).
+Proof. vm_compute. repeat split. Qed.
+
+Print Assumptions C10_symbols_named_exact.
+Print Assumptions C10_references_exact.
+Print Assumptions C10_references_detached.
+Print Assumptions C10_index_invariant.
+Print Assumptions C10_with_lookups_interleaved.
+Print Assumptions C10_example.
